@@ -302,6 +302,15 @@ def short(a):
     return {"shape": list(a.shape), "head": a.ravel()[:6].tolist()}
 
 
+def multinomial_rechunk_class(case, err, opt):
+    """the listed class `random:multinomial-rechunk-extra-axis:compute-raises` (probe_known (E)): predicate on the
+    distribution and the exception"""
+    return case["dist"] == "multinomial" and (
+        (opt and isinstance(err, AttributeError) and "'NoneType' object has no attribute 'dtype'" in repr(err))
+        or (isinstance(err, RuntimeError) and "Failed to generate metadata" in repr(err))
+    )
+
+
 def check_case(ctx, case, progs=None, nprog=3, seeds=True):
     """One random array: realisation r0, then everything that must agree with it."""
     import dask
@@ -403,7 +412,12 @@ def check_case(ctx, case, progs=None, nprog=3, seeds=True):
                     builds = True
                 except Exception:
                     builds = False
-                if builds:
+                if builds and multinomial_rechunk_class(case, e, opt):
+                    # the listed class (probe_known (E)) firing while the derived program is BUILT (a consumer reads .chunks /
+                    # dtype of the elementwise op whose unification pushes a rechunk onto the multinomial array)
+                    fail("random:multinomial-rechunk-extra-axis:compute-raises", "a rechunk pushed through an elementwise op onto a multinomial array raises while the derived program is built",
+                         prog=prog, optimize=opt, error=repr(e)[:300])
+                elif builds:
                     fail("random:derived-raises", "a program derived from a random array cannot be built (it can over from_array of the same values)",
                          prog=prog, optimize=opt, error=repr(e)[:300])
                 else:
@@ -444,10 +458,7 @@ def check_case(ctx, case, progs=None, nprog=3, seeds=True):
                     ctx.extra["generic_program_defect_samples"].append({"prog": prog, "optimize": opt, "error": repr(err)[:200] if err else None})
                 continue
             if err is not None:
-                if case["dist"] == "multinomial" and (
-                    (opt and isinstance(err, AttributeError) and "'NoneType' object has no attribute 'dtype'" in repr(err))
-                    or (isinstance(err, RuntimeError) and "Failed to generate metadata" in repr(err))
-                ):
+                if multinomial_rechunk_class(case, err, opt):
                     # the listed class (probe_known (E)): a rechunk (explicit, or inserted by chunk unification of a stack /
                     # elementwise op with a differently chunked operand) pushed through an elementwise op onto the multinomial
                     # array, whose extra (category) axis is not in its chunks operand
@@ -657,6 +668,200 @@ def probe_known(ctx):
                  "a rechunk of the category axis pushed through an elementwise op onto a multinomial array raises under optimisation (computes with from_array of the same values and with array.optimize-graph=False)")
 
 
+def probe_generic_array_param(ctx):
+    """(F) listed class: every distribution except normal / poisson keeps an array-valued parameter as a whole COLLECTION
+    inside the generic Random node's args / kwargs operands; with more than one output block every task hands the whole
+    parameter to NumPy next to its own block size"""
+    import dask_array as da
+
+    try:
+        x = da.random.default_rng(5).uniform(np.array([0.0, 1.0, 2.0]), 5.0, size=(4, 3), chunks=(2, 3))
+        a = x.compute(**SYNC)
+        ctx.count(("probe", "generic-array-param"))
+        if a.shape != (4, 3) or not (np.all(a >= np.array([0.0, 1.0, 2.0])) and np.all(a < 5.0)):
+            ctx.fail("random:array-param:generic-distribution", {"kind": "default_rng", "seed": 5, "got": a.tolist()}, "wrong data")
+    except Exception as e:
+        ctx.fail("random:array-param:generic-distribution:compute-raises",
+                 {"kind": "default_rng", "seed": 5,
+                  "program": "da.random.default_rng(5).uniform(np.array([0.,1.,2.]), 5.0, size=(4,3), chunks=(2,3)).compute()", "error": repr(e)[:200]},
+                 "a random array of a distribution other than normal / poisson with an array-valued parameter and more than one output block cannot be computed")
+
+
+# ---------------------------------------------------------------------------- array-valued parameters (normal / poisson)
+
+AP_SIG_KNOWN = "random:array-param-node-rebuilt"
+
+
+def _all_random_nodes(expr):
+    """Random nodes of a tree, looking inside fused groups too"""
+    from dask_array.random._expr import Random
+
+    out, seen = [], set()
+
+    def rec(n):
+        if n._name in seen:
+            return
+        seen.add(n._name)
+        if isinstance(n, Random):
+            out.append(n)
+        for inner in getattr(n, "exprs", None) or []:
+            rec(inner)
+        for d in n.dependencies():
+            rec(d)
+
+    rec(expr)
+    return out
+
+
+def check_arrayparam(ctx, case, count=True):
+    """A seeded normal / poisson draw whose parameters are arrays (NumPy or dask, output-shaped or broadcast):
+    repeated computes, a rebuild from equal inputs (values, NAME, graph keys), pickle round trip, persist, a fresh
+    collection, optimize(), optimize-graph off.  Value facts of a program whose optimisation renames the parameter
+    expression (so that the Random node is re-instantiated: the listed class (A) `random:array-param-node-rebuilt`)
+    are counted, not reported; names and repeated computes are checked for every case."""
+    import dask
+    import dask_array as da
+    from harness.props_ext import c04_operands as OP
+
+    cfg = {"array.chunk-size": case["chunk_size"]} if case.get("chunk_size") else {}
+
+    def fail(sig, what, **kw):
+        # the first three inputs of a signature are reported, further ones counted
+        k = "arrayparam_failing_inputs:" + sig
+        ctx.notes[k] = ctx.notes.get(k, 0) + 1
+        if ctx.notes[k] <= 3 or not count:
+            ctx.fail(sig, dict(case, **kw), what + "  [" + OP._describe_arrayparam(case) + "]")
+
+    with dask.config.set(cfg):
+        try:
+            x, want = OP.build_arrayparam(case)
+        except (NotImplementedError, ValueError, TypeError) as e:
+            ctx.notes["arrayparam_refused"] = ctx.notes.get("arrayparam_refused", 0) + 1
+            ctx.notes.setdefault("arrayparam_refused_sample", repr(e)[:120])
+            return
+        try:
+            r0 = x.compute(**SYNC)
+        except Exception as e:
+            fail("random:compute-raises", "a seeded random array with array-valued parameters cannot be computed", error=repr(e)[:300])
+            return
+        if count:
+            hows = tuple(sorted({p["how"] for p in case["params"]}))
+            ctx.count(("arrayparam", case["front"], case["dist"], hows, len(case["shape"]), int(np.prod(x.numblocks)) > 1,
+                       "auto" if not isinstance(case.get("chunks", "auto"), list) else "explicit"))
+        # (1) repeated computes
+        for kw in (SYNC, {"scheduler": "threads"}):
+            if not same(x.compute(**kw), r0, False):
+                fail("random:recompute", "x.compute() twice gives different values", scheduler=kw.get("scheduler"))
+                return
+        # (2) degenerate parameters: NumPy knows the value of every block
+        if want is not None and not (r0.shape == want.shape and np.allclose(r0, want, rtol=1e-9, atol=1e-9)):
+            fail("random:array-param:degenerate-value", "a draw at degenerate parameter values (normal(A, 0) = A, poisson(0) = 0) differs from the parameter", got=short(r0), want=short(want))
+        # (3) rebuild from equal inputs: name always; values / graph keys unless the listed class applies
+        x2, _ = OP.build_arrayparam(case)
+        if x2.name != x.name:
+            fail("random:rebuild-name", "rebuilding with the same seed, shape, chunks and parameters gives a different name", got=x2.name, want=x.name)
+        facts = []  # (signature, what) of value facts that do not hold
+        if not same(x2.compute(**SYNC), r0, False):
+            facts.append(("random:rebuild", "rebuilding with the same seed, shape, chunks and parameters gives different values"))
+        if x2.name == x.name and sorted(map(str, x.__dask_graph__())) != sorted(map(str, x2.__dask_graph__())):
+            facts.append(("random:rebuild-keys", "rebuilding with the same seed, shape, chunks and parameters gives other graph keys under the same name"))
+        # (4) pickle round trip, fresh collection, persist, optimize, optimize-graph off
+        try:
+            y = pickle.loads(pickle.dumps(x))
+        except Exception as e:
+            ctx.notes["pickle_refused"] = repr(e)[:100]
+            y = None
+        if y is not None:
+            if y.name != x.name:
+                fail("random:pickle-name", "a pickle round trip changes the name", got=y.name, want=x.name)
+            if not same(y.compute(**SYNC), r0, False):
+                facts.append(("random:pickle", "pickle round trip changes the values"))
+        for sig, what, f in (
+            ("random:fresh-collection", "a second collection over the same expression computes other values", lambda: da.Array(x.expr).compute(**SYNC)),
+            ("random:persist", "x.persist().compute() differs from x.compute()", lambda: x.persist(**SYNC).compute(**SYNC)),
+            ("random:optimize", "x.optimize().compute() differs from x.compute()", lambda: x.optimize().compute(**SYNC)),
+        ):
+            try:
+                if not same(f(), r0, False):
+                    facts.append((sig, what))
+            except Exception as e:
+                facts.append((sig + ":raises", what + " (raises " + repr(e)[:120] + ")"))
+        try:
+            with dask.config.set({"array.optimize-graph": False}):
+                if not same(da.Array(x.expr).compute(**SYNC), r0, False):
+                    facts.append(("random:unoptimized", "with array.optimize-graph=False the array computes other values"))
+        except Exception as e:
+            facts.append(("random:unoptimized:raises", "with array.optimize-graph=False computing raises " + repr(e)[:120]))
+        if not same(x.compute(**SYNC), r0, False):
+            fail("random:recompute-order", "x.compute() after rebuilding / pickling / persisting differs from the first realisation")
+        # is the Random node re-instantiated by optimisation (its parameter expression renamed)?  decided last: asking
+        # advances the generator
+        try:
+            n0 = {n._name for n in _all_random_nodes(x.expr)}
+            n1 = {n._name for n in _all_random_nodes(x.expr.optimize())}
+            rebuilt = not (n0 <= n1)
+        except Exception:
+            rebuilt = True
+        if count:
+            ctx.notes["arrayparam_node_rebuilt_by_optimisation" if rebuilt else "arrayparam_node_kept_by_optimisation"] = \
+                ctx.notes.get("arrayparam_node_rebuilt_by_optimisation" if rebuilt else "arrayparam_node_kept_by_optimisation", 0) + 1
+        for sig, what in facts:
+            if rebuilt:
+                ctx.notes["arrayparam_value_facts_in_listed_class_" + AP_SIG_KNOWN] = ctx.notes.get("arrayparam_value_facts_in_listed_class_" + AP_SIG_KNOWN, 0) + 1
+            else:
+                fail(sig, what)
+
+
+def gen_arrayparam_case(rng, systematic=None):
+    from harness.props_ext import c04_operands as OP
+
+    if systematic is not None:
+        front, dist, how, bkind = systematic
+        case = OP.gen_arrayparam(rng, dist=dist, front=front, auto=rng.random() < 0.3, how=how)
+        for p in case["params"]:
+            if p["how"] in ("np", "da") and bkind is not None and len(case["shape"]) > 1:
+                p["bshape"] = OP._bshape(bkind, case["shape"])
+                if p["how"] == "da":
+                    p["chunks"] = [OP._chunking(rng, n) for n in p["bshape"]]
+    else:
+        case = OP.gen_arrayparam(rng, dist=rng.choice(OP.AP_EXPLICIT))
+    case["post"] = None
+    if not any(p["how"] in ("np", "da") and p["bshape"] == case["shape"] for p in case["params"]):
+        case["size"] = True  # size= can be left out only when a parameter has the output shape
+    if rng.random() < 0.35:
+        case["prefix"] = rng.randint(1, 2)
+    return case
+
+
+def search_arrayparam(ctx):
+    rng = ctx.rng
+    t0 = time.time()
+    budget = ctx.scale(8, 90)
+    # systematic: every front end x {normal, poisson} x NumPy parameter {output-shaped, row, column, vector} and a dask one
+    grid = [(k, d, "np", b) for k in GEN_KINDS for d in ("normal:free", "poisson:free") for b in ("full", "row", "col", "vec")]
+    grid += [(k, d, "da", None) for k in GEN_KINDS for d in ("normal", "poisson:free")]
+    rng.shuffle(grid)
+    n = len(grid) + ctx.scale(60, 1500)
+    for i in range(n):
+        if time.time() - t0 > budget:
+            ctx.notes["arrayparam_stopped_on_budget_after"] = i
+            break
+        case = gen_arrayparam_case(rng, grid[i] if i < len(grid) else None)
+        if i < 1:
+            ctx.sample({"case": case})
+        try:
+            with_timeout(60, lambda: check_arrayparam(ctx, case))
+        except Hang:
+            ctx.fail("random:hang", case, "building / computing a random array with array-valued parameters does not finish within 60 s")
+            break
+        except Exception as e:
+            import traceback
+
+            ctx.fail("random:raises", dict(case, error=repr(e)[:300], traceback=traceback.format_exc()[-1200:]),
+                     "recomputing / rebuilding a seeded random array with array-valued parameters raises")
+    ctx.notes["arrayparam_grid"] = len(grid)
+
+
 def search(ctx):
     rng = ctx.rng
     n = ctx.scale(600, 6000)
@@ -724,13 +929,23 @@ def run(ctx, replay=None):
     )
     ctx.assumptions = [
         "unseeded generators (seed=None) are out of scope: there is no realisation to reproduce",
-        "distribution parameters are Python scalars / lists; array-valued parameters, Generator.choice and choice over an array population are known failing classes probed separately",
+        "distribution parameters of the main stream are Python scalars / lists; normal / poisson with array-valued parameters (NumPy and dask arrays, "
+        "output-shaped and broadcast, chunks explicit / auto under a small array.chunk-size) have their own stream: repeated computes, rebuild "
+        "(values, name, graph keys), pickle, persist, fresh collection, optimize on/off — value facts of programs whose optimisation renames the parameter "
+        "expression are the listed class random:array-param-node-rebuilt (counted); array parameters of the other distributions "
+        "(random:array-param:generic-distribution:compute-raises), Generator.choice and choice over an array population are listed classes probed separately",
         "float sums / cumsums of derived programs are compared with rtol=1e-9 (summation order differs); everything else bitwise",
         "NumPy's SeedSequence.spawn / BitGenerator streams are deterministic functions of (entropy, spawn_key) (modelled as the abstract `spawn`)",
     ]
     if replay is not None:
         case = replay.get("case", replay)
-        if "kind" in case and "dist" in case:
+        if case.get("kind") == "arrayparam":  # normal / poisson with array-valued parameters
+            c = {k: v for k, v in case.items() if k not in ("error", "got", "want", "scheduler")}
+            try:
+                with_timeout(120, lambda: check_arrayparam(ctx, c))
+            except Hang:
+                ctx.fail("random:hang", c, "building / computing a random array with array-valued parameters does not finish within 120 s")
+        elif "kind" in case and "dist" in case:
             c = {k: case[k] for k in ("kind", "seed", "dist", "shape", "chunks", "prefix") if k in case}
             try:
                 with_timeout(120, lambda: check_case(ctx, c, progs=[case["prog"]] if "prog" in case else None, nprog=4))
@@ -738,6 +953,7 @@ def run(ctx, replay=None):
                 ctx.fail("random:hang", c, "building / optimising / computing a random array does not finish within 120 s")
         else:
             probe_known(ctx)
+            probe_generic_array_param(ctx)
             ctx.correspond("flat_index", flat_pairs(ctx))
         return
     fk = lambda req, model: (req.split()[0], len(req.split()[1].split(",")), model.split()[0])
@@ -753,6 +969,11 @@ def run(ctx, replay=None):
         with_timeout(60, lambda: probe_known(ctx))
     except Hang:
         ctx.fail("random:hang", {"where": "probe_known"}, "the known-class probes do not finish within 60 s")
+    try:
+        with_timeout(30, lambda: probe_generic_array_param(ctx))
+    except Hang:
+        ctx.fail("random:hang", {"where": "probe_generic_array_param"}, "the known-class probe does not finish within 30 s")
     search(ctx)
+    search_arrayparam(ctx)
     if ctx.disagreements:
         targeted(ctx)
